@@ -1,6 +1,6 @@
 #!/usr/bin/env python3
 """Shared machinery of the zog verification checks: TLC runs, harness builds, evidence, verdicts."""
-import atexit, hashlib, json, os, re, shutil, subprocess, sys, tempfile, time
+import atexit, hashlib, json, os, re, shutil, subprocess, sys, tempfile, time  # noqa
 
 VERIF = '/verif'
 SPEC = VERIF + '/spec'
@@ -59,7 +59,7 @@ def harness(args, timeout=3600, env=None):
 
 
 SWITCHES_EXEC = ['SwResetCanCatchField', 'SwResetExitFieldP', 'SwResetExitFieldV', 'SwResetExitElemP',
-                 'SwResetExitElemV', 'SwValStructArgPtr', 'SwNestedSourceTag', 'SwEmptyRecordSourceTag', 'SwRunAllTests']
+                 'SwResetExitElemV', 'SwValStructArgPtr', 'SwPtrFreshCtx', 'SwNestedSourceTag', 'SwEmptyRecordSourceTag', 'SwRunAllTests']
 
 
 def exec_consts(off=(), soft='run', extra=None):
